@@ -47,7 +47,8 @@ def run(tier="quick", seed=0, use_cache=True):
         "(INPLACE-OPERAND: one-shot iterators, str); the rebuild step of C &= "
         "dominates every success result (INPLACE-REPLACE); every PyErr_Clear() of the translation unit is dominated by a test of the exception's class whose failing edge cannot reach it, or is followed by the raising of another exception on every path, or belongs to an accepted protocol idiom (ERR-SWALLOW) - a cursor that clears unguarded ends the iteration silently and the operation returns a truncated result; after PyIter_Next produced an element of an operand a success return (other than a constant answer) is reachable only through another PyIter_Next that returned NULL (ITER-EXHAUST, on top of the exception-state dataflow) - an in-place operator that stops early applies itself to a prefix of its operand. Assumes container cursors yield strictly "
         "increasing keys (C01); result equality on concrete operands is not "
-        "decided.")
+        "decided."
+        " ITER-EXHAUST: a success return after PyIter_Next produced an element is reachable only through the iterator's exhaustion. REAL-TYPE: no PyObject_IsInstance against the unit's own type objects in front of a struct cast (the pure-Python classes' __class__ names the C class).")
     res.assumptions = ["container cursors yield strictly increasing keys (C01)",
                        "initSetIteration/_SetIteration classify operands as documented (kinds are atoms of the table)"]
     out = engine.map_tus("sa.props.C10", "tu_check", use_cache=use_cache)
